@@ -56,6 +56,9 @@ type c13Tamper struct {
 	Headers  []string `json:"headers,omitempty"`
 	SigBit   int      `json:"sig_bit,omitempty"`
 	PostWire bool     `json:"post_wire,omitempty"` // set the header values on the parsed request (fuzzing: arbitrary bytes)
+	// Chunked (with Kind body): the altered body travels with Transfer-Encoding: chunked, i.e. without a
+	// Content-Length (a streaming client, a re-streaming proxy): it is the request's body all the same
+	Chunked bool `json:"chunked,omitempty"`
 }
 
 type c13Case struct {
@@ -944,6 +947,10 @@ func c13Check(ctx *vfCtx, c c13Case) {
 			if _, has := w.get("Content-Type"); !has && len(nb) > 0 {
 				w.Hdr = append(w.Hdr, [2]string{"Content-Type", "application/json"})
 			}
+			if c.T.Chunked && len(nb) > 0 {
+				w.Chunked = true
+				ctx.Class("tamper/body-sent-chunked")
+			}
 		}
 	case "ctype":
 		cur, _ := w.get("Content-Type")
@@ -1683,6 +1690,9 @@ func c13GenRoundTrip(t *rapid.T) c13Case {
 		c.KeyState = rapid.SampledFrom(c13BadKeyStates).Draw(t, "kstate")
 	default: // origin that is not a server name
 		c.Origin = rapid.SampledFrom(c13BadNames).Draw(t, "badorigin")
+	}
+	if c.T.Kind == "body" && rapid.IntRange(0, 2).Draw(t, "bodyChunked") == 0 {
+		c.T.Chunked = true
 	}
 	return c
 }
